@@ -204,6 +204,7 @@ class PongMessage:
     def __init__(self, nonce):
         self.nonce = nonce
 
+    @classmethod
     def parse(cls, s):
         nonce = s.read(8)
         return cls(nonce)
